@@ -46,29 +46,126 @@ namespace Fv.Cache.Loader
 
 attribute [local grind] completerOf ownerOf upd_apply
 
-/-- the six universally quantified clauses are closed by `grind`; the two existence clauses get
-their witness from the old invariant (same thread unless the step hands the role over). -/
-syntax "inv_auto" : tactic
+/-- Proves `Inv s'` clause by clause: the six universally quantified clauses by `grind`, the two
+existence clauses by the supplied tactics. -/
+syntax "inv_with " "(" tacticSeq ")" "(" tacticSeq ")" : tactic
 macro_rules
-  | `(tactic| inv_auto) => `(tactic| (constructor <;> simp only [] <;> first | grind | skip))
+  | `(tactic| inv_with ($mo) ($oc)) => `(tactic|
+      (refine ⟨?f1, ?f2, ?f3, ?f4, ?mo, ?f6, ?f7, ?oc⟩
+       case mo => $mo
+       case oc => $oc
+       all_goals (simp only []; grind)))
+
+syntax "mo_old " ident : tactic
+macro_rules | `(tactic| mo_old $h5) => `(tactic|
+  (intro k' f hp; obtain ⟨u, hu⟩ := $h5 k' f (by grind); exact ⟨u, by grind⟩))
+syntax "oc_old " ident : tactic
+macro_rules | `(tactic| oc_old $h8) => `(tactic|
+  (intro f hf hv; obtain ⟨u, hu⟩ := $h8 f (by grind) (by grind); exact ⟨u, by grind⟩))
+/-- a fresh future `nextFut` was allocated and is owned by thread `w` -/
+syntax "mo_new " ident ident term:max : tactic
+macro_rules | `(tactic| mo_new $h5 $s $w) => `(tactic|
+  (intro k' f hp
+   by_cases hn : f = State.nextFut $s
+   · exact ⟨$w, by grind⟩
+   · obtain ⟨u, hu⟩ := $h5 k' f (by grind); exact ⟨u, by grind⟩))
+syntax "oc_new " ident ident term:max : tactic
+macro_rules | `(tactic| oc_new $h8 $s $w) => `(tactic|
+  (intro f hf hv
+   by_cases hn : f = State.nextFut $s
+   · exact ⟨$w, by grind⟩
+   · obtain ⟨u, hu⟩ := $h8 f (by grind) (by grind); exact ⟨u, by grind⟩))
+/-- the role of thread `t` is handed to thread `w` -/
+syntax "mo_move " ident term:max term:max : tactic
+macro_rules | `(tactic| mo_move $h5 $t $w) => `(tactic|
+  (intro k' f hp
+   obtain ⟨u, hu⟩ := $h5 k' f (by grind)
+   by_cases hn : u = $t
+   · exact ⟨$w, by grind⟩
+   · exact ⟨u, by grind⟩))
+syntax "oc_move " ident term:max term:max : tactic
+macro_rules | `(tactic| oc_move $h8 $t $w) => `(tactic|
+  (intro f hf hv
+   obtain ⟨u, hu⟩ := $h8 f (by grind) (by grind)
+   by_cases hn : u = $t
+   · exact ⟨$w, by grind⟩
+   · exact ⟨u, by grind⟩))
 
 theorem inv_call {s s' : State} {t k : Nat} (hi : Inv s) (h : stepCall s t k = some s') : Inv s' := by
   obtain ⟨h1, h2, h3, h4, h5, h6, h7, h8⟩ := hi
   unfold stepCall at h
-  split at h
-  · split at h <;> simp at h <;> subst h <;> inv_auto
-    all_goals first
-      | (intro k' f hp; obtain ⟨u, hu⟩ := h5 k' f hp; exact ⟨u, by grind⟩)
-      | (intro f hf hv; obtain ⟨u, hu⟩ := h8 f hf hv; exact ⟨u, by grind⟩)
-  · simp at h
+  repeat' split at h
+  all_goals (simp at h; try subst h)
+  all_goals inv_with (mo_old h5) (oc_old h8)
 
 theorem inv_mapRead {s s' : State} {t : Nat} (hi : Inv s) (h : stepMapRead s t = some s') : Inv s' := by
   obtain ⟨h1, h2, h3, h4, h5, h6, h7, h8⟩ := hi
   unfold stepMapRead at h
   repeat' split at h
   all_goals (simp at h; try subst h)
-  all_goals inv_auto
-  all_goals trace_state
-  all_goals sorry
+  all_goals inv_with (first | mo_old h5 | mo_new h5 s (s.nextTid)) (first | oc_old h8 | oc_new h8 s (s.nextTid))
+
+theorem inv_pendingCS {s s' : State} {t : Nat} (hi : Inv s) (h : stepPendingCS s t = some s') : Inv s' := by
+  obtain ⟨h1, h2, h3, h4, h5, h6, h7, h8⟩ := hi
+  unfold stepPendingCS at h
+  repeat' split at h
+  all_goals (simp at h; try subst h)
+  all_goals inv_with (first | mo_old h5 | mo_new h5 s t) (first | oc_old h8 | oc_new h8 s t)
+
+theorem inv_spawn {s s' : State} {t : Nat} (hi : Inv s) (h : stepSpawn s t = some s') : Inv s' := by
+  obtain ⟨h1, h2, h3, h4, h5, h6, h7, h8⟩ := hi
+  unfold stepSpawn at h
+  repeat' split at h
+  all_goals (simp at h; try subst h)
+  all_goals inv_with (mo_move h5 t (s.nextTid)) (oc_move h8 t (s.nextTid))
+
+theorem inv_futCS {s s' : State} {t : Nat} (hi : Inv s) (h : stepFutCS s t = some s') : Inv s' := by
+  obtain ⟨h1, h2, h3, h4, h5, h6, h7, h8⟩ := hi
+  unfold stepFutCS at h
+  repeat' split at h
+  all_goals (simp at h; try subst h)
+  all_goals inv_with (mo_old h5) (oc_old h8)
+
+theorem inv_park {s s' : State} {t : Nat} (hi : Inv s) (h : stepPark s t = some s') : Inv s' := by
+  obtain ⟨h1, h2, h3, h4, h5, h6, h7, h8⟩ := hi
+  unfold stepPark at h
+  repeat' split at h
+  all_goals (simp at h; try subst h)
+  all_goals inv_with (mo_old h5) (oc_old h8)
+
+theorem inv_spurious {s s' : State} {t : Nat} (hi : Inv s) (h : stepSpurious s t = some s') : Inv s' := by
+  obtain ⟨h1, h2, h3, h4, h5, h6, h7, h8⟩ := hi
+  unfold stepSpurious at h
+  repeat' split at h
+  all_goals (simp at h; try subst h)
+  all_goals inv_with (mo_old h5) (oc_old h8)
+
+theorem inv_load {s s' : State} {t : Nat} (hi : Inv s) (h : stepLoad s t = some s') : Inv s' := by
+  obtain ⟨h1, h2, h3, h4, h5, h6, h7, h8⟩ := hi
+  unfold stepLoad at h
+  repeat' split at h
+  all_goals (simp at h; try subst h)
+  all_goals inv_with (mo_old h5) (oc_old h8)
+
+theorem inv_mapInsert {s s' : State} {t : Nat} (hi : Inv s) (h : stepMapInsert s t = some s') : Inv s' := by
+  obtain ⟨h1, h2, h3, h4, h5, h6, h7, h8⟩ := hi
+  unfold stepMapInsert at h
+  repeat' split at h
+  all_goals (simp at h; try subst h)
+  all_goals inv_with (mo_old h5) (oc_old h8)
+
+theorem inv_pendRemove {s s' : State} {t : Nat} (hi : Inv s) (h : stepPendRemove s t = some s') : Inv s' := by
+  obtain ⟨h1, h2, h3, h4, h5, h6, h7, h8⟩ := hi
+  unfold stepPendRemove at h
+  repeat' split at h
+  all_goals (simp at h; try subst h)
+  all_goals inv_with (mo_old h5) (oc_old h8)
+
+theorem inv_complete {s s' : State} {t : Nat} (hi : Inv s) (h : stepComplete s t = some s') : Inv s' := by
+  obtain ⟨h1, h2, h3, h4, h5, h6, h7, h8⟩ := hi
+  unfold stepComplete at h
+  repeat' split at h
+  all_goals (simp at h; try subst h)
+  all_goals inv_with (mo_old h5) (oc_old h8)
 
 end Fv.Cache.Loader
